@@ -54,6 +54,13 @@ def gen_cases(tier, seed):
                     cases.append({"id": cid, "sig": [wrs, was, waors, layout, enc, "valid", "", "kit", mdkeys], "opts": [wrs, was, waors], "layout": layout, "enc": enc,
                                   "corr": "valid", "maker": "kit", "how": "", "alg": "rsa-sha256", "mdkeys": mdkeys,
                                   "identity": gen.identity(random.Random("%s/%s" % (seed, cid)))})
+    # the class of the configuration object the client is built from (SPConfig, plain Config, IdPConfig for an entity that is both)
+    for cc in ("Config", "IdPConfig"):
+        for wrs, was, waors in itertools.product((0, 1), repeat=3):
+            for layout in ("none", "R", "A", "RA"):
+                cid = "o%d%d%d-%s-plain-valid-idp-built-from-%s" % (wrs, was, waors, layout, cc)
+                cases.append({"id": cid, "sig": [wrs, was, waors, layout, 0, "valid", "", "idp", cc], "opts": [wrs, was, waors], "layout": layout, "enc": 0, "corr": "valid",
+                              "maker": "idp", "how": "", "alg": "rsa-sha1", "config_class": cc, "identity": gen.identity(random.Random("%s/%s" % (seed, cid)))})
     # options that are left out of a configuration: what such an SP does must not depend on which SPs were built before it in the same
     # process (reference: the same configuration in a fresh interpreter)
     names = ["want_response_signed", "want_assertions_signed", "want_assertions_or_response_signed"]
@@ -130,16 +137,18 @@ def setup_worker(ctx):
     ctx.fedcache = fed.Cache()
 
 
-def _sp(ctx, opts, mdkeys=None):
+def _sp(ctx, opts, mdkeys=None, config_class=None):
     def build():
+        from saml2_tophat.config import Config, IdPConfig
+        cls = {"Config": Config, "IdPConfig": IdPConfig}.get(config_class)
         spc = fed.sp_conf(want_response_signed=bool(opts[0]), want_assertions_signed=bool(opts[1]),
                           want_assertions_or_response_signed=bool(opts[2]))
         idc = fed.idp_conf()
         idpmd = fed.metadata_of(idc)
         if mdkeys is not None:
             idpmd = mdgen.entity({"eid": fed.IDP_EID, "idp": {"keys": MDKEYS[mdkeys], "sso": [(B_REDIR, fed.SSO_REDIRECT)]}})
-        return fed.make_sp(spc, [idpmd]), fed.make_idp(idc, [fed.metadata_of(spc)])
-    return ctx.fedcache.get("pair", [opts, mdkeys], build)
+        return fed.make_sp(spc, [idpmd], config_class=cls), fed.make_idp(idc, [fed.metadata_of(spc)])
+    return ctx.fedcache.get("pair", [opts, mdkeys, config_class], build)
 
 
 def corrupt_signature(text, owner_ns, owner_local, how):
@@ -213,7 +222,7 @@ def expected_accept(case):
 def run_case(case, ctx):
     if case.get("kind") == "omitted":
         return run_omitted(case, ctx)
-    sp, idp = _sp(ctx, case["opts"], case.get("mdkeys"))
+    sp, idp = _sp(ctx, case["opts"], case.get("mdkeys"), case.get("config_class"))
     xml, rid, aid = build_message(case, idp)
     ctx.mark()
     resp, exc = fed.deliver(sp, xml, dict(OUT))
